@@ -183,7 +183,7 @@ func TestC06(t *testing.T) {
 		"(mid-segment, first hop, segment change at 4 positions, first hop after a segment change, peering hops at 5 positions) x " +
 		"every ConsDir assignment x arrival {external interface of each link type, sibling link with the hop's ingress owned by the " +
 		"sibling for each link type, internal link on the first hop} x egress {own interface of each link type, sibling-owned interface " +
-		"of each link type, 0, unknown} x {SCION, EPIC} x keys; all validated hop fields carry valid MACs; " +
+		"of each link type, 0, unknown} x {SCION, EPIC} x sibling links {detached, connected} x keys; all validated hop fields carry valid MACs; " +
 		"distinct key = scenario+dirs+ingress+egress+type+key; non-trivial = all"
 	var nHarness atomic.Int64
 	harness := func(f string, a ...any) {
@@ -198,15 +198,16 @@ func TestC06(t *testing.T) {
 		keys := mc.Pick([][]byte{rtr.KeyA}, [][]byte{rtr.KeyA, rtr.KeyB})
 		scns := c06Scenarios()
 		type job struct {
-			key []byte
-			sc  c06Scn
-			pt  int
+			key   []byte
+			sc    c06Scn
+			pt    int
+			reuse bool // sibling links as connected sockets (linux) instead of detached links on the internal socket
 		}
 		var jobs []job
 		for _, k := range keys {
 			for _, sc := range scns {
 				for pt := 0; pt < 2; pt++ {
-					jobs = append(jobs, job{k, sc, pt})
+					jobs = append(jobs, job{k, sc, pt, false}, job{k, sc, pt, true})
 				}
 			}
 		}
@@ -215,6 +216,7 @@ func TestC06(t *testing.T) {
 			j := jobs[ji]
 			sc := j.sc
 			cfg := c06Cfg(j.key)
+			cfg.ReuseLocal = j.reuse
 			rt := rtr.MustBuild(cfg)
 			type ingress struct {
 				arr int
@@ -261,7 +263,7 @@ func TestC06(t *testing.T) {
 						raw, lay := p.Serialize()
 						res := rt.Process(raw, in.in)
 						key := fmt.Sprintf("%s|d%b|%s:%s%d|%s:%s%d|pt%d|k%x", sc.name, dm, c06ArrNames[in.arr], c06LTName[in.lt], in.id,
-							c06EgName[eg.kind], c06LTName[eg.lt], eg.id, j.pt, j.key[0])
+							c06EgName[eg.kind], c06LTName[eg.lt], eg.id, j.pt, j.key[0]) + map[bool]string{true: "|connected-sibling-links"}[j.reuse]
 						r.Case(key, true)
 						if sampled.Add(1)%997 == 1 {
 							r.Sample(map[string]any{"case": key, "packet": fmt.Sprintf("%x", raw), "disp": dispName(res.Fast.Disp)})
